@@ -120,6 +120,8 @@ T = {
  "C29-r2m2": ("C29", "validate_implementation_field_types skips a field name already checked against an earlier interface", "two interfaces defining the same field with different types; the implementing field valid for the first, invalid for the later one", ""),
  "C30-r2m1": ("C30", "Name::with_location repacks the file id with a hard-coded TAG_ARC", "a static name followed by with_location", ""),
  "C30-r2m2": ("C30", "Hash for Node<T> hashes the header (location) too", "two equal nodes that differ only in location, hashed", ""),
+ "C20-r2m1": ("C20", "validate_directives: unknown directives count as non-repeatable without a schema", "a directive the schema declares repeatable, applied twice on one node", ""),
+ "C20-r2m2": ("C20", "schema-less build of a field omits its directives", "a variable whose only uses are in directives applied to fields", ""),
  "C33-m2": ("C33", "collect_fields: a fragment spread's fields replace nothing but are not merged into an already collected key", "same composite response key twice, the later occurrence from a named fragment with an extra sub-field", ""),
 }
 
